@@ -1,4 +1,5 @@
 from collections import defaultdict
+from copy import copy
 from itertools import count
 from typing import Dict, List, Optional, Set, Tuple, Union
 
@@ -606,7 +607,11 @@ def _replace_constants(
                             value, tmp_registers, lineno=command.lineno
                         )
                         commands.insert(i, set_command)
+                        # Do not modify the operand in place: the same entry/slice
+                        # object may be used by other commands as well
+                        operand = copy(operand)
                         setattr(operand, attr, register)
+                        command.operands[j] = operand
 
                         i += 1
         i += 1
